@@ -426,6 +426,16 @@ pub fn deliver_and_judge(
             a
         })
         .collect();
+    if failure.is_some() {
+        // a refused block drops the rest of the response, announced headers included
+        let newly: Vec<&H32> = stored.iter().filter(|a| !stored_before.contains(a)).collect();
+        if !newly.is_empty() {
+            out.fail(format!(
+                "{ctx}: a block of the response was refused ({:?}) but {} of its announced headers were stored (highest announced height now {:?})",
+                verdicts, newly.len(), snap.next_headers.iter().map(|(_, h)| *h).max()
+            ));
+        }
+    }
     for ((_, height), a) in snap.next_headers.iter().zip(stored.iter()) {
         if stored_before.contains(a) {
             // connectedness is a condition for storing a header; a header stored
